@@ -395,6 +395,11 @@ class Exec:
             return IntV(v.hi() if m.group(2) == "MAX" else v.lo(), bits, signed)
         # named constant of the crate (e.g. formatter::YEAR): evaluate its MIR body
         name = strip_generics(text)
+        if name not in self.consts and "promoted[" in name:
+            # promoted constants are printed with a shorter module path at their definition
+            cands = [n for n in self.consts if name.endswith("::" + n) or name == n]
+            if len(cands) == 1:
+                name = cands[0]
         if name not in self.consts:
             cands = [n for n in self.consts if n.split("::")[-1] == name.split("::")[-1] and "promoted" not in n]
             if len(cands) == 1:
@@ -526,11 +531,23 @@ class Exec:
         return self.aggregate(s, env, fn)
 
     def aggregate(self, s, env, fn):
-        m = re.match(r"^(.*?)\((.*)\)$", s, re.S)
         fields = None
-        if m and not s.endswith("}"):
-            path = strip_generics(m.group(1))
-            fields = [self.operand(parse_operand(x), env, fn) for x in split_top(m.group(2))]
+        head = None
+        if s.endswith(")"):
+            depth, i = 0, len(s) - 1
+            while i >= 0:
+                if s[i] == ")":
+                    depth += 1
+                elif s[i] == "(":
+                    depth -= 1
+                    if depth == 0:
+                        break
+                i -= 1
+            if i > 0:
+                head, inner = s[:i], s[i + 1:-1]
+        if head is not None:
+            path = strip_generics(head)
+            fields = [self.operand(parse_operand(x), env, fn) for x in split_top(inner)]
         else:
             m2 = re.match(r"^(.*?) \{(.*)\}$", s, re.S)
             if m2:
